@@ -54,11 +54,16 @@ def ofPrefix : List PEMatcher → SetMatcher
   | [] => any
   | p :: rest => mk false [(p, ofPrefix rest)]
 
-/-- insertion into a slice sorted by `PathElementMatcher.Less` (`NewSetMatcher` sorts its members) -/
+/-- insertion into a slice sorted by `PathElementMatcher.Less`, BEFORE the first member whose path is
+not smaller (`sortMembers` feeds the members last to first, so members with equal paths keep their
+argument order) -/
 def sortInsert (x : PEMatcher × SetMatcher) : List (PEMatcher × SetMatcher) → List (PEMatcher × SetMatcher)
   | [] => [x]
-  | y :: ys => if PEMatcher.less x.1 y.1 then x :: y :: ys else y :: sortInsert x ys
+  | y :: ys => if PEMatcher.less y.1 x.1 then y :: sortInsert x ys else x :: y :: ys
 
+/-- `sort.Sort(sortedMemberMatcher(members))` in `NewSetMatcher` (fieldpath/set.go:214-217): for at most
+12 members Go's pdqsort is an insertion sort, hence stable: among members with equal paths the first
+one given stays first (and is the one `FilterIncludeMatches` / `Find` use). -/
 def sortMembers (l : List (PEMatcher × SetMatcher)) : List (PEMatcher × SetMatcher) :=
   l.foldr sortInsert []
 
